@@ -352,10 +352,10 @@ func verifH_OpenReverse() {
 	}
 	verifCover("ended")
 	wantLeft := boolToInt(other != nil)
-	verifAssert(len(h.reverse.chans) == wantLeft, "C12+C14.ended-tunnel-not-in-global-list")
+	verifAssert(len(h.reverse.chans) == wantLeft, "C09+C12+C14.ended-tunnel-not-in-global-list")
 	for _, rck := range h.reverseByKey {
 		for _, e := range rck.chans {
-			verifAssert(e.ch == other, "C12+C14.ended-tunnel-in-no-key-list")
+			verifAssert(e.ch == other, "C09+C12+C14.ended-tunnel-in-no-key-list")
 		}
 	}
 	verifAssert(h.AsChannel().Ready() == (other != nil), "C12.ready-reflects-remaining-tunnels")
